@@ -21,6 +21,22 @@ CHECKS = {
              "continuation/comment/re-indented/parenthesised layouts.",
         note="Trusted: CPython positions (except inside f-string fields, where the reference's substring-search locator is arbitrated by slice-reparse), the context templates.",
         design="§2 C02"),
+    "C03": dict(
+        technique="in-process seeded mutation fuzzing under overflow-checks/debug-assertions + release builds with panic hook, error-offset and step-counter monitors (hook H2); pathological shapes with stack limits and a steps-per-byte scaling monitor; valgrind memcheck and Miri shards",
+        text="Every execution (input x mode x start offset) is watched for panic, abort (dead process, bisected to the input), arithmetic overflow, "
+             "unbounded token streams, error offsets outside [start, start+len] or off a character boundary, and logical step counts above a linear "
+             "bound; 49 pathological families are run at depth 50/200 (2 MiB stack, checked build) and 250/1000 (8 MiB, release) as verdicts and at "
+             "5000+ for information. Restated bounds: linear step bound instead of 'small polynomial'; explicit depth bounds for 'realistic nesting'.",
+        note="Trusted: hook H2 counts every scanner / look-ahead / string-parser / reduce step; inputs near 4 GiB are out of reach (offset arithmetic near 2^32 is reached through start offsets).",
+        design="§2 C03"),
+    "C05": dict(
+        technique="invariant monitor over recorded token streams (ordering, bounds, gap language, spelling/value tables, bracket/indent state) in both lexer configurations; CPython tokenize as second opinion for comments and NL",
+        text="For every text that lexes without error, every token of the default and the full-lexer build is checked against the source bytes: "
+             "in-bounds, on character boundaries, ordered and disjoint, gaps only whitespace/comments/continuations, text spells the token (names, "
+             "operators, keywords, number values, string prefix/quotes/inner text), NEWLINE only at depth 0, INDENT/DEDENT balanced and at logical "
+             "line starts; full-lexer comments and non-logical newlines equal CPython tokenize's. A run that never saw some Tok variant is inconclusive.",
+        note="Trusted: the spelling tables and gap regular expression in mon/checks/c05.py; CPython tokenize for comment/NL positions (LF-only texts).",
+        design="§2 C05"),
     "C15": dict(
         technique="in-process invariant monitor against a naive reference model, exhaustive small scope + seeded random",
         text="Every query of the line index, source-code view, universal-newline iterators (all next/next_back interleavings) and "
